@@ -18,7 +18,7 @@ EXTENDS Integers, Sequences, TLC, Json
 
 CONSTANTS Dirs, Inputs, FailingInputs, Dump
 Entries == {"cli", "client", "mc", "direct"}
-Args == {"none", "relative", "absolute"}
+Args == {"none", "relative", "absolute", "relative_plain", "absolute_plain"}    \* _plain: a name without extension under a directory with a dot in its name
 
 Hists == {"cold", "warm"}
 
@@ -30,6 +30,8 @@ OutPath(e, a, d) ==
   CASE e = "cli" /\ a = "none"     -> [out |-> <<d, "HDR.out">>, json |-> <<d, "HDR.json">>]
     [] e = "cli" /\ a = "relative" -> [out |-> <<d, "rel", "case.out">>, json |-> <<d, "rel", "case.json">>]
     [] e = "cli" /\ a = "absolute" -> [out |-> <<"abs", "case.out">>, json |-> <<"abs", "case.json">>]
+    [] e = "cli" /\ a = "relative_plain" -> [out |-> <<d, "rel.v2", "case">>, json |-> <<d, "rel.v2", "case.json">>]
+    [] e = "cli" /\ a = "absolute_plain" -> [out |-> <<"abs.d", "case">>, json |-> <<"abs.d", "case.json">>]
     [] OTHER                       -> [out |-> <<"tmp", "result.out">>, json |-> <<"tmp", "result.json">>]
 
 Init == /\ pc = "start" /\ entry \in Entries /\ arg \in Args /\ dir \in Dirs /\ input \in Inputs
